@@ -581,3 +581,219 @@ Proof.
       apply in_map_iff in Hs. destruct Hs as (t & <- & Ht). apply filter_In in Ht. pose proof (r_lt _ _ _ _ J (fst t) (in_map fst _ _ (proj1 Ht))). lia.
 Qed.
 End Edge4.
+
+Section Edge5.
+Variable inputs : list (list ix).
+Notation N := (length inputs).
+
+Lemma rel_loop ep : forall P st sp, Rel inputs P st sp -> NoDup ep ->
+  (forall j, In j ep -> known inputs j = true /\ ~ In j P) ->
+  Rel inputs (rev ep ++ P) (fold_left edge_step ep st) (fold_left (spec_step inputs) ep sp).
+Proof.
+  induction ep as [|j ep IH]; intros P st sp J Hnd Hk; [exact J|].
+  inversion Hnd as [|? ? Hn Hnd']; subst. cbn [fold_left rev]. rewrite <- app_assoc. cbn [app].
+  destruct (Hk j (or_introl eq_refl)) as [Hkj HjP].
+  apply IH; [apply rel_step; [exact J|]|exact Hnd'|].
+  - unfold tracked. rewrite Hkj. cbn [andb]. apply negb_true_iff, memb_false, HjP.
+  - intros j' Hj'. destruct (Hk j' (or_intror Hj')) as [A B]. split; [exact A|]. intros [<-|H]; [contradiction|apply B, H].
+Qed.
+
+(* edge_path_steps_are_carriers: on every list of distinct indices that occur in the network
+   the model of edge_path_to_ssa does not raise and emits exactly the steps of the simulation:
+   for each index, in order, the (sorted) ids of the live tensors carrying it, provided there
+   are at least two *)
+Theorem edge_path_refines ep : NoDup ep -> (forall j, In j ep -> known inputs j = true) ->
+  edge_path_to_ssa ep inputs = (sp_path (spec_run inputs ep), false).
+Proof.
+  intros Hnd Hk. unfold edge_path_to_ssa, spec_run.
+  pose proof (rel_loop ep [] (edge_init inputs) (spec_init inputs) (rel_init inputs) Hnd
+                (fun j Hj => conj (Hk j Hj) (fun H => H))) as J.
+  rewrite (r_path _ _ _ _ J), (r_raised _ _ _ _ J). reflexivity.
+Qed.
+
+Lemma raised_stays ep : forall st, e_raised st = true -> fold_left edge_step ep st = st.
+Proof.
+  induction ep as [|j ep IH]; intros st H; [reflexivity|]. cbn [fold_left].
+  assert (E0 : edge_step st j = st) by (rewrite edge_step_unfold, H; reflexivity). rewrite E0. apply IH, H.
+Qed.
+
+(* ... and on any other list it raises (KeyError) at the first index that is repeated or does
+   not occur in the network, having emitted the steps of the valid prefix *)
+Theorem edge_path_raises pre j suf : NoDup pre -> (forall i, In i pre -> known inputs i = true) ->
+  (In j pre \/ known inputs j = false) ->
+  edge_path_to_ssa (pre ++ j :: suf) inputs = (sp_path (spec_run inputs pre), true).
+Proof.
+  intros Hnd Hk Hbad. unfold edge_path_to_ssa, spec_run. rewrite fold_left_app. cbn [fold_left].
+  pose proof (rel_loop pre [] (edge_init inputs) (spec_init inputs) (rel_init inputs) Hnd
+                (fun i Hi => conj (Hk i Hi) (fun H => H))) as J. rewrite app_nil_r in J.
+  set (st := fold_left edge_step pre (edge_init inputs)) in *.
+  assert (Ht : tracked inputs (rev pre) j = false).
+  { unfold tracked. destruct Hbad as [H|H]; [|rewrite H; reflexivity].
+    assert (memb j (rev pre) = true) by (apply memb_In; rewrite <- in_rev; exact H). rewrite H0. apply andb_false_r. }
+  assert (E0 : edge_step st j = mkES (ind_to_ssas st) (ssa_to_inds st) (e_ssa st) (e_path st) true).
+  { rewrite edge_step_unfold, (r_raised _ _ _ _ J), (r_i2s _ _ _ _ J j), Ht. reflexivity. }
+  rewrite E0, raised_stays by reflexivity. cbn [e_path e_raised]. rewrite (r_path _ _ _ _ J). reflexivity.
+Qed.
+End Edge5.
+
+(* ------------------------------------------------------------------ *)
+(* validity of the emitted ssa path and of its linear image *)
+Fixpoint live_after (live : list nat) (ssa : nat) (p : list (list nat)) : list nat * nat :=
+  match p with
+  | [] => (live, ssa)
+  | scon :: rest => live_after (filter (fun x => negb (memb x scon)) live ++ [ssa]) (S ssa) rest
+  end.
+
+Lemma live_after_snoc p : forall live ssa scon,
+  live_after live ssa (p ++ [scon]) =
+  (filter (fun x => negb (memb x scon)) (fst (live_after live ssa p)) ++ [snd (live_after live ssa p)],
+   S (snd (live_after live ssa p))).
+Proof. induction p as [|c p IH]; intros live ssa scon; [reflexivity|]. cbn [app live_after]. apply IH. Qed.
+
+Lemma valid_ssa_snoc p : forall live ssa scon,
+  valid_ssa live ssa p -> scon <> [] -> NoDup scon -> (forall s, In s scon -> In s (fst (live_after live ssa p))) ->
+  valid_ssa live ssa (p ++ [scon]).
+Proof.
+  induction p as [|c p IH]; intros live ssa scon Hv Hne Hnd Hin; cbn [app valid_ssa live_after] in *.
+  - repeat split; auto.
+  - destruct Hv as (A & B & C & D). repeat split; auto.
+Qed.
+
+Lemma map_fst_filter_neg {B} (f : nat * B -> bool) (l : list (nat * B)) : NoDup (map fst l) ->
+  map fst (filter (fun t => negb (f t)) l) = filter (fun x => negb (memb x (map fst (filter f l)))) (map fst l).
+Proof.
+  induction l as [|[a b] l IH]; intros Hnd; [reflexivity|]. cbn [map fst] in Hnd. inversion Hnd as [|? ? Hn Hnd']; subst.
+  cbn [filter map fst]. destruct (f (a, b)) eqn:Ef; cbn [negb map fst].
+  - unfold memb at 1. cbn [existsb]. rewrite Nat.eqb_refl. cbn [orb negb]. rewrite (IH Hnd').
+    apply filter_ext_in. intros x Hx. unfold memb. cbn [existsb]. destruct (Nat.eqb_spec x a) as [->|_]; [contradiction|reflexivity].
+  - assert (Hm : memb a (map fst (filter f l)) = false).
+    { apply memb_false. intros H. apply Hn. apply in_map_iff in H. destruct H as (t & <- & Ht). apply filter_In in Ht. apply in_map, Ht. }
+    rewrite Hm. cbn [negb]. f_equal. apply IH, Hnd'.
+Qed.
+
+Lemma NoDup_app_intro'' {A} (a b : list A) :
+  NoDup a -> NoDup b -> (forall x, In x a -> ~ In x b) -> NoDup (a ++ b).
+Proof.
+  induction a as [|x a IH]; cbn; intros Ha Hb Hd; [exact Hb|].
+  inversion Ha as [|? ? Hnin Ha']; subst. constructor.
+  - rewrite in_app_iff. intros [H|H]; [contradiction|]. apply (Hd x); [left; reflexivity|exact H].
+  - apply IH; [exact Ha'|exact Hb|]. intros y Hy. apply Hd. right; exact Hy.
+Qed.
+
+Section Edge6.
+Variable inputs : list (list ix).
+Notation N := (length inputs).
+
+Record SpecOk (sp : spst) : Prop := {
+  so_valid : valid_ssa (seq 0 N) N (sp_path sp);
+  so_after : live_after (seq 0 N) N (sp_path sp) = (map fst (sp_live sp), sp_next sp);
+  so_ids : sasc (map fst (sp_live sp))
+}.
+
+Lemma specok_init : SpecOk (spec_init inputs).
+Proof.
+  constructor; cbn [spec_init sp_path sp_live sp_next valid_ssa live_after].
+  - exact I.
+  - rewrite map_map. cbn [fst]. rewrite map_id. reflexivity.
+  - rewrite map_map. cbn [fst]. rewrite map_id. apply sasc_seq.
+Qed.
+
+Lemma specok_step sp j : (forall s, In s (map fst (sp_live sp)) -> s < sp_next sp) -> SpecOk sp ->
+  SpecOk (spec_step inputs sp j) /\ (forall s, In s (map fst (sp_live (spec_step inputs sp j))) -> s < sp_next (spec_step inputs sp j)).
+Proof.
+  intros Hlt [Hv Ha Hi]. unfold spec_step. set (car := carriers inputs (sp_live sp) j).
+  destruct (Nat.ltb_spec (length car) 2) as [Hs|Hb]; [split; [constructor; assumption|exact Hlt]|].
+  assert (Hnd : NoDup (map fst (sp_live sp))) by (apply sasc_NoDup, Hi).
+  split.
+  - constructor; cbn [sp_path sp_live sp_next].
+    + apply valid_ssa_snoc; [exact Hv| | |].
+      * destruct car as [|t car']; [cbn in Hb; lia|discriminate].
+      * apply sasc_NoDup. unfold car, carriers. apply sasc_map_fst_filter, Hi.
+      * rewrite Ha. cbn [fst]. intros s Hs. apply in_map_iff in Hs. destruct Hs as (t & <- & Ht). apply filter_In in Ht. apply in_map, Ht.
+    + rewrite live_after_snoc, Ha. cbn [fst snd]. rewrite map_app. cbn [map fst]. f_equal. f_equal.
+      symmetry. apply (map_fst_filter_neg (fun t => carries inputs (snd t) j) (sp_live sp) Hnd).
+    + rewrite map_app. cbn [map fst]. apply sasc_app_last; [apply sasc_map_fst_filter, Hi|].
+      intros y Hy. apply Hlt. apply in_map_iff in Hy. destruct Hy as (t & <- & Ht). apply filter_In in Ht. apply in_map, Ht.
+  - cbn [sp_live sp_next]. intros s Hs. rewrite map_app, in_app_iff in Hs. destruct Hs as [Hs|[<-|[]]]; [|cbn; lia].
+    apply in_map_iff in Hs. destruct Hs as (t & <- & Ht). apply filter_In in Ht. pose proof (Hlt (fst t) (in_map fst _ _ (proj1 Ht))). lia.
+Qed.
+
+Lemma specok_run ep : SpecOk (spec_run inputs ep).
+Proof.
+  unfold spec_run.
+  assert (G : forall ep sp, (forall s, In s (map fst (sp_live sp)) -> s < sp_next sp) -> SpecOk sp ->
+            SpecOk (fold_left (spec_step inputs) ep sp)).
+  { induction ep0 as [|j ep0 IH]; intros sp Hlt Hok; [exact Hok|]. cbn [fold_left].
+    destruct (specok_step sp j Hlt Hok) as [A B]. apply IH; assumption. }
+  apply G; [|apply specok_init]. cbn [spec_init sp_live sp_next]. intros s Hs. rewrite map_map in Hs. cbn [fst] in Hs. rewrite map_id in Hs.
+  apply in_seq in Hs. lia.
+Qed.
+
+(* the emitted ssa path is valid, for EVERY list of indices *)
+Theorem edge_path_valid_ssa ep : valid_ssa (seq 0 N) N (fst (edge_path_to_ssa ep inputs)).
+Proof.
+  (* split ep at the first bad index *)
+  assert (G : forall ep pre, NoDup pre -> (forall i, In i pre -> known inputs i = true) ->
+            exists good, fst (edge_path_to_ssa (pre ++ ep) inputs) = sp_path (spec_run inputs good)).
+  { induction ep0 as [|j ep0 IH]; intros pre Hnd Hk.
+    - rewrite app_nil_r. exists pre. rewrite (edge_path_refines inputs pre Hnd Hk). reflexivity.
+    - destruct (in_dec Nat.eq_dec j pre) as [Hin|Hnin].
+      + exists pre. rewrite (edge_path_raises inputs pre j ep0 Hnd Hk (or_introl Hin)). reflexivity.
+      + destruct (known inputs j) eqn:Ek.
+        * replace (pre ++ j :: ep0) with ((pre ++ [j]) ++ ep0) by (rewrite <- app_assoc; reflexivity).
+          apply IH.
+          -- apply NoDup_app_intro''; [exact Hnd|repeat constructor; intros []|]. intros x Hx [<-|[]]. contradiction.
+          -- intros i Hi. apply in_app_iff in Hi. destruct Hi as [Hi|[<-|[]]]; [apply Hk, Hi|exact Ek].
+        * exists pre. rewrite (edge_path_raises inputs pre j ep0 Hnd Hk (or_intror Ek)). reflexivity. }
+  destruct (G ep [] (NoDup_nil _) (fun i H => match H with end)) as (good & E0). cbn [app] in E0. rewrite E0.
+  apply (so_valid _ (specok_run good)).
+Qed.
+End Edge6.
+
+(* ssa_to_linear maps valid ssa paths to valid linear paths *)
+Lemma ssa_run_valid_lin spath : forall ids ssa, ids_ok ids ssa -> valid_ssa ids ssa spath ->
+  valid_lin (length ids) (ssa_run ids ssa spath).
+Proof.
+  induction spath as [|scon rest IH]; intros ids ssa Hok Hv; [exact I|].
+  cbn [valid_ssa] in Hv. destruct Hv as (Hne & Hnd & Hlive & Hv). destruct Hok as [Hs Hlt].
+  cbn [ssa_run valid_lin].
+  set (P := map (bisect_left ids) scon).
+  assert (HP : forall c, In c P -> c < length ids).
+  { intros c Hc. apply in_map_iff in Hc. destruct Hc as (s & <- & Hs'). apply bisect_present; auto. }
+  assert (Hback : map (fun c => nth c ids 0) P = scon).
+  { unfold P. rewrite map_map. rewrite <- (map_id scon) at 2. apply map_ext_in. intros s Hs'. apply bisect_present; auto. }
+  assert (HPnd : NoDup P).
+  { apply NoDup_map_inj_in; [|exact Hnd].
+    intros x y Hx Hy E. rewrite <- (proj2 (bisect_present ids x Hs (Hlive x Hx))), <- (proj2 (bisect_present ids y Hs (Hlive y Hy))), E. reflexivity. }
+  assert (Hsa : sasc (sort_asc P)) by (apply sort_asc_sasc, HPnd).
+  assert (Hd : desc_from (length ids) (rev (sort_asc P))).
+  { apply sdesc_desc_from; [apply sasc_rev, Hsa|]. intros d Hd. rewrite <- in_rev in Hd. apply HP.
+    eapply Permutation_in; [apply sort_asc_perm|exact Hd]. }
+  assert (Hlen : length (sort_asc P) = length scon).
+  { rewrite (Permutation_length (sort_asc_perm P)). unfold P. apply map_length. }
+  split; [|split; [|split]].
+  - intros E0. rewrite E0 in Hlen. destruct scon; [congruence|discriminate].
+  - apply sasc_NoDup, Hsa.
+  - intros c Hc. apply HP. eapply Permutation_in; [apply sort_asc_perm|exact Hc].
+  - destruct (pops_ok (rev (sort_asc P)) (length ids) ids ssa Hd (le_n _) (conj Hs Hlt)) as [Hok' Hlen'].
+    replace (length ids - length (sort_asc P) + 1) with (length (pops (rev (sort_asc P)) ids ++ [ssa]))
+      by (rewrite app_length, Hlen', rev_length; cbn [length]; lia).
+    apply IH; [apply ids_ok_append, Hok'|].
+    eapply valid_ssa_ext; [|exact Hv]. intros x. rewrite !in_app_iff, filter_In.
+    rewrite (in_pops (rev (sort_asc P)) (length ids) ids x Hd (le_n _) (si_NoDup ids Hs)).
+    rewrite map_rev. rewrite <- in_rev.
+    assert (Hmem : In x (map (fun c => nth c ids 0) (sort_asc P)) <-> In x scon).
+    { split; intros H.
+      - rewrite <- Hback. eapply Permutation_in; [|exact H]. apply Permutation_map, sort_asc_perm.
+      - rewrite <- Hback in H. eapply Permutation_in; [|exact H]. apply Permutation_map. symmetry. apply sort_asc_perm. }
+    rewrite Hmem, negb_true_iff, memb_false. tauto.
+Qed.
+
+Theorem ssa_to_linear_valid spath N : valid_ssa (seq 0 N) N spath -> valid_lin N (ssa_to_linear spath N).
+Proof.
+  intros Hv. rewrite ssa_to_linear_run. rewrite <- (seq_length N 0) at 1. apply ssa_run_valid_lin; [apply ids_ok_init|exact Hv].
+Qed.
+
+(* the linear image of an edge path is a valid linear path *)
+Theorem edge_path_valid_linear inputs ep : valid_lin (length inputs) (edge_path_to_linear ep inputs).
+Proof. unfold edge_path_to_linear. apply ssa_to_linear_valid, edge_path_valid_ssa. Qed.
